@@ -137,6 +137,16 @@ def gen_desc(rng, KEY, ABS):
                     e["cc"] = rng.randrange(120)
                 if rng.random() < 0.1 and typ != "key":
                     e["note"] = rng.randrange(128)
+                # … including the negative-side target of another type (seed C10-11: `bidirectional` derived from any
+                # negative field instead of the one of the entry's own type) and a stray action
+                if rng.random() < 0.08 and typ != "cc":
+                    e["cc_negative"] = rng.randrange(120)
+                if rng.random() < 0.08 and typ != "key":
+                    e["note_negative"] = rng.randrange(128)
+                if rng.random() < 0.08 and typ != "action":
+                    e["action_negative"] = rng.choice(ACTIONS)
+                if rng.random() < 0.05 and typ != "action":
+                    e["action"] = rng.choice(ACTIONS)
                 a["map"].append((spell, code, e))
             for spell, code in pick_keys(rng.choice([0, 0, 1, 2]), ABS, absnames):
                 a["deadzones"].append((spell, code, rng.choice([0.0, 0.1, 0.05, 0.13, 0.5, 0.91])))
